@@ -1,0 +1,56 @@
+//go:build verif
+
+package stdlib
+
+// Contracts on the Impl callbacks of standard-library functions (C11: total under the argument
+// contract that Function.Call enforces - no panic, a well-formed result of the checked return type,
+// never null where the function declares a non-null result; C13/C14: the documented result on known
+// arguments). The precondition of each callback is not written here: `spec_args pkg.Var` derives it
+// on every run from the function.Spec literal of that variable (Params, VarParam, static return
+// type). Comment-only file.
+//
+//@ func stdlib.NotFunc.Impl
+//@   tags C11 C14
+//@   spec_args stdlib.NotFunc
+//@   ensures[C11] ok: (and (= result.1 nil.Any) (wf_deep result.0) (is_bool_ty (vty result.0)) (not (is_null result.0)))
+//@   ensures[C14] value: (=> (kn (val_at args 0)) (bool_payload result.0 (not (bool_of (val_at args 0)))))
+//
+//@ func stdlib.AndFunc.Impl
+//@   tags C11 C14
+//@   spec_args stdlib.AndFunc
+//@   ensures[C11] ok: (and (= result.1 nil.Any) (wf_deep result.0) (is_bool_ty (vty result.0)) (not (is_null result.0)))
+//@   ensures[C14] value: (=> (and (kn (val_at args 0)) (kn (val_at args 1))) (bool_payload result.0 (and (bool_of (val_at args 0)) (bool_of (val_at args 1)))))
+//
+//@ func stdlib.OrFunc.Impl
+//@   tags C11 C14
+//@   spec_args stdlib.OrFunc
+//@   ensures[C11] ok: (and (= result.1 nil.Any) (wf_deep result.0) (is_bool_ty (vty result.0)) (not (is_null result.0)))
+//@   ensures[C14] value: (=> (and (kn (val_at args 0)) (kn (val_at args 1))) (bool_payload result.0 (or (bool_of (val_at args 0)) (bool_of (val_at args 1)))))
+//
+//@ func stdlib.NegateFunc.Impl
+//@   tags C11 C14
+//@   spec_args stdlib.NegateFunc
+//@   ensures[C11] ok: (and (= result.1 nil.Any) (wf_deep result.0) (is_number_ty (vty result.0)) (not (is_null result.0)))
+//@   ensures[C14] value: (and (kn result.0) (= (num_i result.0) (- (num_i (val_at args 0)))) (= (num_r result.0) (- (num_r (val_at args 0)))))
+//
+//@ func stdlib.LessThanFunc.Impl
+//@   tags C11 C14
+//@   spec_args stdlib.LessThanFunc
+//@   ensures[C11] ok: (and (= result.1 nil.Any) (wf_deep result.0) (is_bool_ty (vty result.0)) (not (is_null result.0)))
+//@   ensures[C14] value: (=> (and (kn (val_at args 0)) (kn (val_at args 1)) (is_number_ty (vty (val_at args 0))) (is_number_ty (vty (val_at args 1)))) (bool_payload result.0 (bf_lt (bf_of (val_at args 0)) (bf_of (val_at args 1)))))
+//
+//@ func stdlib.GreaterThanFunc.Impl
+//@   tags C11 C14
+//@   spec_args stdlib.GreaterThanFunc
+//@   ensures[C11] ok: (and (= result.1 nil.Any) (wf_deep result.0) (is_bool_ty (vty result.0)) (not (is_null result.0)))
+//@   ensures[C14] value: (=> (and (kn (val_at args 0)) (kn (val_at args 1)) (is_number_ty (vty (val_at args 0))) (is_number_ty (vty (val_at args 1)))) (bool_payload result.0 (bf_lt (bf_of (val_at args 1)) (bf_of (val_at args 0)))))
+//
+//@ func stdlib.LessThanOrEqualToFunc.Impl
+//@   tags C11 C14
+//@   spec_args stdlib.LessThanOrEqualToFunc
+//@   ensures[C11] ok: (and (= result.1 nil.Any) (wf_deep result.0) (is_bool_ty (vty result.0)) (not (is_null result.0)))
+//
+//@ func stdlib.GreaterThanOrEqualToFunc.Impl
+//@   tags C11 C14
+//@   spec_args stdlib.GreaterThanOrEqualToFunc
+//@   ensures[C11] ok: (and (= result.1 nil.Any) (wf_deep result.0) (is_bool_ty (vty result.0)) (not (is_null result.0)))
